@@ -35,6 +35,7 @@ int vh_run_family(const vh_args_t *a) {
     if (!strcmp(f->name, a->family)) {
       vh_ctx_new(a->out, a->seed, 0);
       if (strstr(a->extra, "views")) vh_views = 1;
+      if (strstr(a->extra, "mixviews")) vh_views = 2;
       if (a->env & 1) vh_poison_alloc = 1;
       if (a->env & 2) vh_poison_free = 1;
       if (a->env & 4) vh_npass = 2;
